@@ -81,6 +81,8 @@ pub struct VT {
 	pub decode_depth: fn(u32, &[u8]) -> DecRes,
 	pub decode_all_depth: fn(u32, &[u8]) -> Result<Value, String>,
 	pub decode_from_bytes: fn(Vec<u8>) -> DecRes,
+	/// decode through `CountedInput` over a slice: (result, count(), bytes the slice delivered)
+	pub decode_counted: fn(&[u8]) -> (Result<Value, String>, u64, usize),
 	pub fixed_size: fn() -> Option<usize>,
 	pub mel: Option<fn() -> usize>,
 	pub cel: bool,
@@ -204,6 +206,15 @@ fn dec_from_bytes<T: Subject + Decode>(data: Vec<u8>) -> DecRes {
 	}
 }
 
+fn dec_counted<T: Subject + Decode>(data: &[u8]) -> (Result<Value, String>, u64, usize) {
+	let mut s = data;
+	let mut c = parity_scale_codec::CountedInput::new(&mut s);
+	let r = T::decode(&mut c);
+	let count = c.count();
+	let delivered = data.len() - s.len();
+	(r.map(|t| t.to_value()).map_err(|e| e.to_string()), count, delivered)
+}
+
 fn fixed<T: Decode>() -> Option<usize> {
 	T::encoded_fixed_size()
 }
@@ -262,6 +273,7 @@ impl VT {
 			decode_depth: dec_depth::<T>,
 			decode_all_depth: dec_all_depth::<T>,
 			decode_from_bytes: dec_from_bytes::<T>,
+			decode_counted: dec_counted::<T>,
 			fixed_size: fixed::<T>,
 			mel: None,
 			cel: false,
